@@ -11,7 +11,7 @@ import ggvals as G
 
 FAMILY = "ser"
 HARNESS = {"source": "x_ser.c", "exclude_objs": ["value"], "extra_sources": ["x_gg.h", "cifio.h"],
-           "cflags": ["-DVERIF_CASE_SECONDS=6"], "leak_clean": True}
+           "cflags": ["-DVERIF_CASE_SECONDS=2"], "leak_clean": True}
 RULE = ("random nested values (depth <= 6 quick / <= 30 thorough; list and table widths around the capacity steps 4, 8, 10, 15; "
         "strings of 0-600 units incl. supplementary characters; numbers in every accepted spelling), values padded so that the "
         "serialised size lands on and around 512 * 1.5^k, single writes needing more than 1.5 x the capacity, plus direct calls "
@@ -26,7 +26,7 @@ def generate(seed, tier):
     yield "ser sizes"
     # the growth loop on its own: capacities from 2 up, positions below / at / above capacity, lengths around the 1.5^k points
     caps = [2, 3, 4, 5, 7, 8, 100, 511, 512, 513]
-    for _ in range(600 if quick else 6000):
+    for _ in range(300 if quick else 6000):
         cap = r.choice(caps)
         pos = r.choice([0, 1, cap - 1, cap, cap + 1, (cap * 3) // 2, (cap * 3) // 2 + 1, cap * 2, r.randint(0, 6000)])
         pos = max(0, pos)
@@ -36,7 +36,7 @@ def generate(seed, tier):
         yield "ser grow %d %d %d" % (cap, pos, tgt)
     # values
     maxdepth = 6 if quick else 30
-    for i in range(3000 if quick else 30000):
+    for i in range(2000 if quick else 30000):
         mode = r.random()
         if mode < 0.35:
             t = G.rand_tree(r, r.randint(1, 4), maxlen=r.choice([8, 40, 600]), unstable_keys=True)
@@ -126,7 +126,9 @@ def shrink(req):
             yield ("C", x[1], x[2][:-1])
         elif k == "M":
             yield ("U",)
-    for v in variants(tree):
+    for n, v in enumerate(variants(tree)):
+        if n >= 30:
+            break                      # a failing case may cost seconds (time-out): keep the search short
         yield "ser v " + " ".join(G.value_tokens(v))
 
 
